@@ -11,6 +11,7 @@ pub mod c10;
 pub mod c11;
 pub mod c12;
 pub mod c13;
+pub mod c14;
 pub mod c15;
 pub mod c16;
 pub mod c17;
@@ -43,6 +44,7 @@ pub fn check(id: &str, tier: &str) -> i32 {
         "C11" => c11::check(tier),
         "C12" => c12::check(tier),
         "C13" => c13::check(tier),
+        "C14" => c14::check(tier),
         "C15" => c15::check(tier),
         "C16" => c16::check(tier),
         "C17" => c17::check(tier),
